@@ -572,7 +572,14 @@ Proof.
       intros s a' Hin Sa'. apply in_map_iff in Hin. destruct Hin as (m & <- & Hm).
       destruct (Htmp m Hm) as (b1 & a & Hb1 & Hi1 & Ea & Sa). assert (a' = a) by (destruct Sa', Sa; congruence). subst a'.
       destruct (Hmv m Hm) as (_ & _ & asrc & _ & _ & Ssrc & Ksrc & _). rewrite Ea. unfold mk_tmp. rewrite (Hsrc1 m asrc Hm Ssrc). cbn [a_align].
-      eapply vi_align; eauto. }
+      eapply vi_align; eauto.
+    - rewrite Hcfg2. reflexivity.
+    - (* minimum alignment *)
+      intros s a' lx Hin Sa' Gx. apply in_map_iff in Hin. destruct Hin as (m & <- & Hm).
+      destruct (Htmp m Hm) as (b1 & a & Hb1 & Hi1 & Ea & Sa). assert (a' = a) by (destruct Sa', Sa; congruence). subst a'.
+      destruct (Hmv m Hm) as (_ & _ & asrc & _ & _ & Ssrc & Ksrc & Lsrc & _). rewrite Ea in Gx |- *. unfold mk_tmp in Gx |- *.
+      rewrite (Hsrc1 m asrc Hm Ssrc). cbn [a_align a_lref] in Gx |- *. rewrite Hg2 in Gx. injection Gx as <-. rewrite Hcfg2. cbn.
+      apply (vi_minalign _ _ _ _ HI (src_of m) asrc l Ssrc ltac:(intros []) Ksrc). rewrite Lsrc. exact Hg. }
   split; [exact I2|].
   assert (Hgo : forall lr1, lr1 <> lr -> get_blist v2 lr1 = get_blist v lr1).
   { intros lr1 Hne. rewrite (Hoth _ Hne). unfold v1. apply get_set_blist_other. congruence. }
